@@ -334,11 +334,27 @@ impl<'a, 'c> DG<'a, 'c> {
                     let k = self.next_key;
                     let pre = format!("{}{}_l = (lambda ", "    ".repeat(indent), self.decor());
                     let bind_col = pre.len();
-                    let mid = format!("{pre}{name} = \"{tag}\": probe({k}, ");
+                    let mut mid = format!("{pre}{name} = ");
+                    let mut default_use: Option<(u32, String, usize)> = None;
+                    if !visible.is_empty() && self.ch.chance(1, 3) {
+                        // default of a lambda parameter: evaluated in the enclosing scope
+                        let outer = if visible.contains(&name.to_owned()) && self.ch.bool() { name.to_owned() } else { visible[self.ch.idx(visible.len())].clone() };
+                        self.next_key += 1;
+                        let k0 = self.next_key;
+                        mid.push_str(&format!("[probe({k0}, "));
+                        default_use = Some((k0, outer.clone(), mid.len()));
+                        mid.push_str(&format!("{outer}), \"{tag}\"][1]"));
+                    } else {
+                        mid.push_str(&format!("\"{tag}\""));
+                    }
+                    mid.push_str(&format!(": probe({k}, "));
                     let use_col = mid.len();
                     let line = self.push_line(format!("{mid}{name}))()"));
                     self.doc.bindings.push(Binding { name: name.to_owned(), scope: sc, line, byte_col: bind_col, tag, file: 0 });
                     self.doc.uses.push(UseSite { key: k, name: name.to_owned(), line, byte_col: use_col });
+                    if let Some((k0, n0, c0)) = default_use {
+                        self.doc.uses.push(UseSite { key: k0, name: n0, line, byte_col: c0 });
+                    }
                 }
                 _ => {
                     // for loop variable (belongs to the enclosing function/module scope)
@@ -376,7 +392,18 @@ impl<'a, 'c> DG<'a, 'c> {
             }
             let tag = self.tag(name, sc);
             self.doc.bindings.push(Binding { name: name.to_owned(), scope: sc, line: line_idx, byte_col: sig.len(), tag: tag.clone(), file: 0 });
-            sig.push_str(&format!("{name} = \"{tag}\""));
+            if !outer_visible.is_empty() && self.ch.chance(1, 3) {
+                // the default expression is evaluated in the ENCLOSING scope: it may read an outer binding, also one whose
+                // name is a parameter of this very def; the parameter still gets its own tagged value
+                let outer = if outer_visible.contains(&name.to_owned()) && self.ch.bool() { name.to_owned() } else { outer_visible[self.ch.idx(outer_visible.len())].clone() };
+                self.next_key += 1;
+                let k = self.next_key;
+                sig.push_str(&format!("{name} = [probe({k}, "));
+                self.doc.uses.push(UseSite { key: k, name: outer.clone(), line: line_idx, byte_col: sig.len() });
+                sig.push_str(&format!("{outer}), \"{tag}\"][1]"));
+            } else {
+                sig.push_str(&format!("{name} = \"{tag}\""));
+            }
             params.push(name.to_owned());
         }
         sig.push_str("):");
